@@ -54,14 +54,21 @@ def gen(args) -> list:
                 ev.update(wy=wy, w=w, dow=int(d.day_of_week), weeks=rule.get_weeks_in_week_year(wy, cal))
                 back = rule.get_local_date(wy, w, d.day_of_week, cal)
                 ev["rt"] = back == d
-                ev["ys_wy"] = calc._get_start_of_year_in_days(wy)
-                ev["ys_next"] = calc._get_start_of_year_in_days(wy + 1)
                 if name == "iso" and cal.id == "ISO" and 1 <= d.year <= 9999:
                     iso = dt.date(d.year, d.month, d.day).isocalendar()
                     ev["iso_std"] = (iso[0], iso[1], iso[2]) == (wy, w, int(d.day_of_week)) and \
                         LocalDate.from_week_year_week_and_day(wy, w, d.day_of_week) == d
             except Exception as e:  # noqa: BLE001
-                ev.update(exc=type(e).__name__, wy=0, w=0, dow=0, weeks=0, rt=False, ys_wy=0, ys_next=0)
+                ev.update(exc=type(e).__name__, wy=0, w=0, dow=0, weeks=0, rt=False)
+            if "exc" not in ev:
+                # projection for the declarative definition (private year starts; one year past the range they may not exist:
+                # then the event carries no year starts and only the self-consistency clauses apply)
+                try:
+                    ev["ys_wy"] = calc._get_start_of_year_in_days(ev["wy"])
+                    ev["ys_next"] = calc._get_start_of_year_in_days(ev["wy"] + 1)
+                except Exception:  # noqa: BLE001
+                    ev.pop("ys_wy", None)
+                    ev.pop("ys_next", None)
             evs.append(ev)
     # (week-year, week, weekday) -> date, including weeks that do not exist and dates outside the calendar
     for _ in range(nwin):
